@@ -36,10 +36,15 @@ def d3_scale_bilinear(domain, _range, uninterpolate, interpolate):
 
 
 def d3_uninterpolateNumber(a, b):
+    if b == a:
+        # degenerate domain: everything maps to the start of the range
+        return lambda x: 0.0
     return lambda x: (x - a) / (b - a)
 
 
 def d3_uninterpolateClamp(a, b):
+    if b == a:
+        return lambda x: 0.0
     return lambda x: max(0, min(1, (x - a) / (b - a)))
 
 
